@@ -31,6 +31,14 @@ Fixpoint paren_after_clause_kw (ts : toks) : bool :=
   | [] => false
   end.
 
+(* two or more '?' after ')' that the next tokens do not settle: the text has several
+   readings under which it parses, and which one the generated parser takes is modelled
+   by a preference order validated for one such token only.  A disagreement between the
+   reference parser and the generator's tree on such a text is counted (kind 102), not
+   reported, as long as the implementation gives the same outcome for both texts; a
+   difference in the implementation's outcomes is always reported. *)
+Definition several_undecided (ts : toks) : bool := (2 <=? List.length (q_candidates ts))%nat.
+
 Definition same_program (p q : option program) : bool :=
   match p, q with
   | Some a, Some b => program_eqb a b
@@ -53,6 +61,7 @@ Fixpoint check_alts (i j : N) (tc : toks) (pc : option program) (alts : list (by
              if same_impl then []
              else if paren_after_clause_kw ts && negb (paren_after_clause_kw tc) then [(7%N, i, j)]
              else [(0%N, i, j)]
+           else if same_impl && (several_undecided tc || several_undecided ts) then [(102%N, i, j)]
            else [(1%N, i, j)])
       end ++ check_alts i (j + 1)%N tc pc r
   end.
@@ -66,6 +75,7 @@ Definition check_case (i : N) (c : c06case) : list (N * N * N) :=
       (if kinds_agree tc ks then [] else [(5%N, i, 0%N)]) ++
       match ast with
       | Some a => if same_program pc (Some a) then []
+                  else if several_undecided tc then [(102%N, i, 0%N)]
                   else [(4%N, i, 0%N)]
       | None => match pc with Some _ => [] | None => [(1%N, i, 0%N)] end
       end ++
